@@ -402,6 +402,17 @@ Definition stream_rejected (s : ostate) : bool :=
 Definition symptom (s : ostate) : bool :=
   stuck_run_state s || stuck_ending s || stopped_after_ended s || starting_lost s || stream_rejected s.
 
+(* further symptoms when a one-second wait may give up although the run thread
+   is still making progress: a stale _runflag, a write of the old run thread
+   that lands after cleanup() has reset the states, a command that raises
+   AttributeError because it meets the dropped worker reference *)
+Definition late_write_after_cleanup (s : ostate) : bool :=
+  negb (o_hasw s)
+  && negb (match o_rs s, o_ps s with RNotInit, PNotInit => true | _, _ => false end).
+
+Definition symptom_loose (s : ostate) : bool :=
+  symptom s || o_runflag s || o_err s || late_write_after_cleanup s.
+
 (* ---- schedules: explicit interleavings ---- *)
 Inductive lab :=
 | LW (i : nat)      (* the run thread takes its i-th enabled step *)
